@@ -280,7 +280,8 @@ PROPS = {
                    'clean Err; VerifierOnlyCircuitData::from_slice index layout proved in bounds. For the dummy branch: CircuitBuilder::dummy_proof_and_vk returns a proof target shaped by the INNER circuit\'s common data and a '
                    'verifier-data target with the inner circuit\'s cap height (the repair of F13), and registers exactly one generator, which fills those returned targets with the dummy proof and the verifier data of the dummy circuit of the inner common data '
                    '(unit dummy_proof; builder methods and dummy_circuit / dummy_proof uninterpreted). conditionally_verify_proof lays down exactly ONE in-circuit verification, of the proof and the verifier data selected by the SAME condition with operand 0 first in both, for the given common data; '
-                   'conditionally_verify_proof_or_dummy does so with the caller\'s pair first and the freshly allocated dummy pair second (the multiplexers and verify_proof are uninterpreted there). The in-circuit parts themselves (select_*, cyclic '
+                   'conditionally_verify_proof_or_dummy does so with the caller\'s pair first and the freshly allocated dummy pair second (the multiplexers and verify_proof are uninterpreted there). conditionally_verify_cyclic_proof (and its _or_dummy form) connects, UNCONDITIONALLY and on every call, the verifier data spelled out by the cyclic proof\'s public inputs '
+                   'to the circuit\'s own verifier-data public inputs (digest and cap) and lays down exactly one verification: the cyclic proof against the circuit\'s OWN verifier data when the condition holds, the other / dummy pair otherwise. The in-circuit parts themselves (select_*, cyclic '
                    'connection of verifier data, the dummy circuit itself) are covered by a bounded stand-in only.',
         level_note='Trusted: Verus+Z3; derived PartialEq on MerkleCap/HashOut is element-wise (T11); core::array::from_fn unrolled for N = 4 (R11e); slice range '
                    'indexing and HashOut::from_partial contracts (T4). conditionally_verify_proof, select_*, conditionally_verify_cyclic_proof, '
